@@ -253,3 +253,21 @@ def sany(module, spec_dir=None):
                        stderr=subprocess.STDOUT, text=True)
     return ("Semantic errors" not in p.stdout and "*** Errors" not in p.stdout
             and "Could not" not in p.stdout and "Fatal" not in p.stdout), p.stdout
+
+
+def apalache(module, init, inv, length, timeout=300):
+    """Apalache bounded check of spec/apalache/<module>.tla; returns (ok, seconds, tail of the output). ok is None when the tool is unavailable."""
+    exe = shutil.which("apalache-mc")
+    if not exe:
+        return None, 0.0, "apalache-mc not installed"
+    out = tempfile.mkdtemp(prefix="kvapa_")
+    t0 = time.time()
+    try:
+        p = subprocess.run([exe, "check", "--init=" + init, "--inv=" + inv, "--length=%d" % length, "--out-dir=" + out, module + ".tla"],
+                           cwd=os.path.join(SPEC_DIR, "apalache"), stdout=subprocess.PIPE, stderr=subprocess.STDOUT, text=True, timeout=timeout)
+        txt = p.stdout
+    except subprocess.TimeoutExpired:
+        return None, time.time() - t0, "timeout"
+    finally:
+        shutil.rmtree(out, ignore_errors=True)
+    return ("EXITCODE: OK" in txt), time.time() - t0, txt[-600:]
